@@ -28,4 +28,7 @@ MUTANTS = [
     m("c15-stage-loop-continues", "R2", "                    if isinstance(exception, KeyboardInterrupt):\n                        return MCMCSampleChainsOutputs(chain_states, traces, stats)\n", ""),
     m("c15-twin-seq-elif", None, "        if not isinstance(exception, AdaptationError):\n            chain_outputs.append(outputs)\n        # If returned handled exception was a manual interrupt break and return\n        if isinstance(exception, KeyboardInterrupt):\n            break\n", "        if isinstance(exception, KeyboardInterrupt):\n            chain_outputs.append(outputs)\n            break\n        if not isinstance(exception, AdaptationError):\n            chain_outputs.append(outputs)\n", twin=True),
     m("c15-twin-catch-base", None, H, H.replace("except KeyboardInterrupt as e", "except (KeyboardInterrupt, SystemExit) as e"), twin=True),
+    m("c15-memmap-fill-only-floats", "R5", "    memmap[:] = default_val\n", "    if np.issubdtype(memmap.dtype, np.inexact):\n        memmap[:] = default_val\n", key="fill-not-on-every-path"),
+    m("c15-memmap-fill-zero", "R5", "    memmap[:] = default_val\n", "    memmap[:] = 0\n"),
+    m("c15-twin-memmap-fill-method", None, "    memmap[:] = default_val\n", "    memmap.fill(default_val)\n", twin=True),
 ]
